@@ -10,11 +10,16 @@ LONG_CHAINS = ["chains"]  # C22: asserted leaf at the end of a chain of unassert
 SHARED_LINES = ["shared_lines", "oneline_first"]  # C35: one source line = entry of code objects + predicates of another one
 # deterministic, but with unannotated / Union parameters, a class hierarchy and a pragma-excluded branch; used by C16 only
 # (kept out of ALL so that the workloads of the other whole-pipeline checks do not change)
-EXTRA = ["untyped", "shapespkg.area", "tagsets"]  # "pkg.mod": the whole package directory is copied, the dotted name is the module under test
+EXTRA = ["untyped", "shapespkg.area", "tagsets", "vocab"]  # "pkg.mod": the whole package directory is copied, the dotted name is the module under test
 # used by the generated-file checks C18/C19/C24 only: oracles on module-level state at statements that bind nothing, and
 # values whose class is nested in another class
 GENFILES_EXTRA = ["counter", "nested", "privexc", "allenum"]
 STATEFUL_MODULE = ["counter"]  # module-level variables changed by calls: what a test observes first depends on earlier executions
+
+
+# modules whose functions never iterate over (or order) an argument: a set built by a test cannot make THEIR behaviour depend on
+# the string-hash seed (hashing a str / frozenset of str does not depend on iteration order)
+NO_ARGUMENT_ITERATION = ["vocab", "tagsets", "tri", "lastcall"]
 
 
 def copy_to(dest, names=None):
